@@ -446,8 +446,6 @@ where
         trailer.size = (self.refs.len() + 2) as _;
         let trailer_dict = trailer.to_dict(self)?;
         
-        let xref_promise = self.promise::<Stream<XRefInfo>>();
-
         let mut changes: Vec<_> = self.changes.iter().collect();
         changes.sort_unstable_by_key(|&(id, _)| id);
 
@@ -460,6 +458,8 @@ where
             writeln!(self.backend, "\nendobj")?;
         }
 
+        // allocate the id of the xref stream only now: an object that fails to serialize must not leave a promise behind
+        let xref_promise = self.promise::<Stream<XRefInfo>>();
         let xref_pos = self.backend.len() - self.start_offset;
         self.refs.set(xref_promise.get_inner().id, XRef::Raw { pos: xref_pos, gen_nr: 0 });
         // only write up to the xref stream obj id
